@@ -1,6 +1,6 @@
 (* C07 - tail-call optimisation is semantically transparent.  Statements only. *)
 From Coq Require Import List Arith NArith ZArith String.
-From Xr Require Import Base.Res Lang.Tco Lang.Limits Lang.Syntax Lang.Eval.
+From Xr Require Import Base.Res Lang.Tco Lang.Limits Lang.Syntax Lang.Eval Extracted.Tails Lang.TailTable.
 Import ListNotations.
 Open Scope nat_scope.
 
@@ -35,7 +35,33 @@ Example C07_nonvacuous :
   run_program (N.to_nat 50000) (mklim None None None false) prog ["a"] = "500500||1002"%string.
 Proof. vm_compute. split; reflexivity. Qed.
 
+(* the native functions that hand the caller's tail position on - and the argument they hand it to - are, in today's Rust
+   sources (extracted on every run), exactly the documented short-circuit functions and identities the model assumes; no other
+   native forwards the flag, and the evaluator's tail positions are those of the corresponding sites *)
+Theorem C07_tail_forwarders_as_modelled :
+  x_tail_sites = model_tail_sites /\ x_tail_literal_true = model_literal_true /\ evaluator_agrees = true.
+Proof. repeat split; reflexivity. Qed.
+
+(* every modelled carrier (if, and, or, or on optionals, if_error, map_or) really is a tail position of the reference evaluator:
+   2000 iterations through each under a depth limit of 4 (entry, the loop, and the mapped function of map_or) *)
+Example C07_carriers_nonvacuous :
+  let C f args := ECall (EVar f) args in
+  let dec := C "sub" [EVar "n"; EInt 1%Z] in
+  let f_and := DFn "la" [("n", None)] [] (C "and" [C "gt" [EVar "n"; EInt 0%Z]; C "la" [dec]]) in
+  let f_or := DFn "lo" [("n", None)] [] (C "or" [C "eq" [EVar "n"; EInt 0%Z]; C "lo" [dec]]) in
+  let f_oru := DFn "lu" [("n", None)] [] (C "or_unwrap" [C "if" [C "eq" [EVar "n"; EInt 0%Z]; C "some" [EInt 7%Z]; C "none" []]; C "lu" [dec]]) in
+  let f_ife := DFn "le_" [("n", None)] [] (C "if_error" [C "div_floor" [EInt 1%Z; C "if" [C "eq" [EVar "n"; EInt 0%Z]; EInt 1%Z; EInt 0%Z]]; C "le_" [dec]]) in
+  let f_mo := DFn "lm" [("n", None)] []
+                (C "map_or" [C "if" [C "eq" [EVar "n"; EInt 0%Z]; C "some" [EInt 7%Z]; C "none" []]; ELam [("x", None)] [] (EVar "x"); C "lm" [dec]]) in
+  let prog := [f_and; f_or; f_oru; f_ife; f_mo;
+               DFn "a" [] [] (C "la" [EInt 2000%Z]); DFn "b" [] [] (C "lo" [EInt 2000%Z]); DFn "c" [] [] (C "lu" [EInt 2000%Z]);
+               DFn "d" [] [] (C "le_" [EInt 2000%Z]); DFn "e" [] [] (C "lm" [EInt 2000%Z])] in
+  run_program (N.to_nat 200000) (mklim (Some 4%N) None None true) prog ["a"; "b"; "c"; "d"; "e"] = "false#true#7#1#7||11"%string.
+Proof. vm_compute. reflexivity. Qed.
+
 Print Assumptions C07_transparent.
 Print Assumptions C07_recursion_limit_exact.
 Print Assumptions C07_no_depth_no_call.
 Print Assumptions C07_nonvacuous.
+Print Assumptions C07_tail_forwarders_as_modelled.
+Print Assumptions C07_carriers_nonvacuous.
